@@ -483,6 +483,9 @@ func c35GenScenario(rt *rapid.T, tmpl string) c35Scenario {
 		spec.Series = rapid.IntRange(1, 3).Draw(rt, "series")
 		spec.Samples = rapid.IntRange(1, 130).Draw(rt, "samples")
 		spec.Segments = rapid.IntRange(1, 2).Draw(rt, "segments")
+		if spec.Series < spec.Segments {
+			spec.Series = spec.Segments
+		}
 		spec.Level = rapid.SampledFrom([]int{1, 1, 2}).Draw(rt, "level")
 		spec.Empty = i == emptyAt
 		if seen[spec.ULID.String()] {
